@@ -53,17 +53,20 @@ func runC19(c *Ctx) {
 		if !takesPath {
 			continue
 		}
-		moves := len(callsIn(f, func(call ssa.CallInstruction) bool {
-			cal := call.Common().StaticCallee()
-			if cal == nil || cal.Signature.Recv() == nil || !namedIs(cal.Signature.Recv().Type(), protoreflectPkg, "Value") {
+		moves := 0
+		for _, g := range unexportedRegion(f) {
+			moves += len(callsIn(g, func(call ssa.CallInstruction) bool {
+				cal := call.Common().StaticCallee()
+				if cal == nil || cal.Signature.Recv() == nil || !namedIs(cal.Signature.Recv().Type(), protoreflectPkg, "Value") {
+					return false
+				}
+				switch cal.Name() {
+				case "Message", "List", "Map":
+					return true
+				}
 				return false
-			}
-			switch cal.Name() {
-			case "Message", "List", "Map":
-				return true
-			}
-			return false
-		}))
+			}))
+		}
 		if moves > 0 {
 			evals = append(evals, f)
 		}
@@ -93,7 +96,16 @@ func runC19(c *Ctx) {
 			}
 		}
 		if hc == nil || hd == nil {
-			c.S.Bad("R1", name+":cursors", c.pos(ev.Pos()), "the evaluator's loop does not carry both a value cursor and a descriptor cursor: later steps are resolved against a stale descriptor")
+			// the cursors may live in a struct (a walker object with one method per step kind): then every store
+			// to its value field must come with a store to its descriptor field that is executed whenever it is
+			if ok, nst := c.coUpdateFields(ev, name); nst > 0 {
+				if ok {
+					c.S.OK("R1", name+":co-update", c.pos(ev.Pos()), fmt.Sprintf("%d stores of the value cursor field, each with a store of the descriptor cursor field on the same path", nst), true)
+				}
+			} else {
+				c.S.Bad("R1", name+":cursors", c.pos(ev.Pos()), "the evaluator carries neither loop variables nor struct fields for both a value cursor and a descriptor cursor: later steps are resolved against a stale descriptor")
+			}
+			c.stepKindsHandled(ev, name)
 			continue
 		}
 		// enumerate back-edge operand pairs
@@ -166,27 +178,7 @@ func runC19(c *Ctx) {
 			c.S.Bad("R1", name+":co-update:"+stepArmName(c, bad[k], ev), c.pos(bad[k]), "the value cursor moves ("+k+") while the descriptor cursor stays: the next field access is resolved against the wrong message type")
 		}
 
-		// R3: step-kind switch
-		covered := switchConsts(ev, func(v ssa.Value) bool {
-			call, ok := v.(*ssa.Call)
-			if !ok {
-				return false
-			}
-			if call.Call.IsInvoke() {
-				return call.Call.Method.Name() == "Kind"
-			}
-			cal := call.Call.StaticCallee()
-			return cal != nil && cal.Name() == "Kind" && cal.Signature.Recv() != nil && namedIs(cal.Signature.Recv().Type(), protopathPkg, "Step")
-		})
-		all := constsOfType(c, protopathPkg, "StepKind")
-		var missing []string
-		for v, n := range all {
-			if !covered[v] {
-				missing = append(missing, n)
-			}
-		}
-		sort.Strings(missing)
-		c.S.Check(len(missing) == 0 && len(all) > 0, "R3", name+":step kinds", c.pos(ev.Pos()), fmt.Sprintf("all %d protopath.StepKind constants handled", len(all)), fmt.Sprintf("step kinds not handled by the evaluator: %v", missing))
+		c.stepKindsHandled(ev, name)
 	}
 
 	// ---- R8: kind conversions of the value cursor are guarded by the descriptor's kind ----
@@ -803,4 +795,92 @@ func evalConstHelper(call *ssa.Call) (int64, bool) {
 		}
 	}
 	return best, best >= 0
+}
+
+// stepKindsHandled: R3 for the evaluator — its step-kind switch covers every protopath.StepKind constant.
+func (c *Ctx) stepKindsHandled(ev *ssa.Function, name string) {
+	covered := switchConsts(ev, func(v ssa.Value) bool {
+		call, ok := v.(*ssa.Call)
+		if !ok {
+			return false
+		}
+		if call.Call.IsInvoke() {
+			return call.Call.Method.Name() == "Kind"
+		}
+		cal := call.Call.StaticCallee()
+		return cal != nil && cal.Name() == "Kind" && cal.Signature.Recv() != nil && namedIs(cal.Signature.Recv().Type(), protopathPkg, "Step")
+	})
+	all := constsOfType(c, protopathPkg, "StepKind")
+	var missing []string
+	for v, n := range all {
+		if !covered[v] {
+			missing = append(missing, n)
+		}
+	}
+	sort.Strings(missing)
+	c.S.Check(len(missing) == 0 && len(all) > 0, "R3", name+":step kinds", c.pos(ev.Pos()), fmt.Sprintf("all %d protopath.StepKind constants handled", len(all)), fmt.Sprintf("step kinds not handled by the evaluator: %v", missing))
+}
+
+// coUpdateFields: the field form of R1. In the evaluator's region, for every store to a struct field of type
+// protoreflect.Value (the value cursor) there is a store to a descriptor-typed field of the same struct object in
+// the same block or in a block that dominates it (so it is executed whenever the value cursor moves). Returns
+// (all ok, number of value-cursor stores).
+func (c *Ctx) coUpdateFields(ev *ssa.Function, name string) (bool, int) {
+	isDescType := func(t types.Type) bool {
+		return namedIs(t, protoreflectPkg, "Descriptor") || namedIs(t, protoreflectPkg, "MessageDescriptor") || namedIs(t, protoreflectPkg, "FieldDescriptor")
+	}
+	fieldType := func(fa *ssa.FieldAddr) types.Type {
+		if pt, ok := fa.Type().(*types.Pointer); ok {
+			return pt.Elem()
+		}
+		return nil
+	}
+	okAll, n := true, 0
+	for _, g := range unexportedRegion(ev) {
+		type st struct {
+			s    *ssa.Store
+			base ssa.Value
+		}
+		var vals, descs []st
+		for _, b := range g.Blocks {
+			for _, in := range b.Instrs {
+				s, ok := in.(*ssa.Store)
+				if !ok {
+					continue
+				}
+				fa, ok := s.Addr.(*ssa.FieldAddr)
+				if !ok {
+					continue
+				}
+				// literal initialisation of a fresh walker sets both at once and is not a move
+				if al, isAl := fa.X.(*ssa.Alloc); isAl && al.Comment == "complit" {
+					continue
+				}
+				ft := fieldType(fa)
+				switch {
+				case ft != nil && namedIs(ft, protoreflectPkg, "Value"):
+					vals = append(vals, st{s, fa.X})
+				case ft != nil && isDescType(ft):
+					descs = append(descs, st{s, fa.X})
+				}
+			}
+		}
+		for _, v := range vals {
+			n++
+			found := false
+			for _, d := range descs {
+				if d.base != v.base {
+					continue
+				}
+				if d.s.Block() == v.s.Block() || d.s.Block().Dominates(v.s.Block()) {
+					found = true
+				}
+			}
+			if !found {
+				okAll = false
+				c.S.Bad("R1", name+":co-update:"+load.FuncName(g), c.pos(v.s.Pos()), "the value cursor field is assigned without the descriptor cursor field being assigned on the same path: the next field access is resolved against the wrong message type")
+			}
+		}
+	}
+	return okAll, n
 }
